@@ -422,6 +422,9 @@ func (k *checker) check(sp spec, tag string) {
 		// one Add that does not, and the process() that the first Quantile of Close starts with
 		var rd tdReader
 		have := false
+		// the model replays ~1000 centroids per such op in software floats: in the thorough tier the
+		// compression pass is watched on a third of the data sets (the Quantile-level checks run on all)
+		mergeWatch := k.c.Tier != "thorough" || k.r.Chance(0.33)
 		maxU, triggers := 0, 0
 		plain := -1
 		if n > 1 {
@@ -430,7 +433,7 @@ func (k *checker) check(sp spec, tag string) {
 		for i, l := range lats {
 			var pre full
 			watch := false
-			if have {
+			if have && mergeWatch {
 				if rd.unprocessedLen() >= maxU { // this Add runs process
 					triggers++
 					watch = triggers <= 2 || n <= 2500 || k.r.Chance(0.02) || n-i <= maxU+1
@@ -454,7 +457,9 @@ func (k *checker) check(sp spec, tag string) {
 		preClose := rd.read()
 		m.Close()
 		// Close calls Quantile four times; the state after the first leading process() is the final one
-		k.mc.procOp(s, preClose, rd.read(), 100, fmt.Sprint(repl))
+		if mergeWatch {
+			k.mc.procOp(s, preClose, rd.read(), 100, fmt.Sprint(repl))
+		}
 	}); p {
 		s.Violate(kit.Violation{Kind: "metrics_panic", What: "Metrics.Add/Close panicked: " + msg, Input: repl})
 		return
